@@ -15,6 +15,19 @@ PROPS = {
                     "metamorphic stream only", "float literals: differential against strconv only",
                     "string-literal unescaping: differential only"],
     },
+    "C10": {
+        "gens": [],
+        "lean": "Anko.Props.C10",
+        "streams": [{"name": "cont", "n_quick": 1500, "n_thorough": 30000}],
+        "trusted": ["the heap model lean/Anko/Model/Cont.lean mirrors the container code paths of vm/*.go (validated each run: every statement result and the final contents, "
+                    "capacities and sharing of random histories)",
+                    "Go's append growth policy (runtime.growslice): the capacity after a growing append is a parameter of the model operation, taken from the native run",
+                    "the native Go reference of the harness (real []interface{} / map[interface{}]interface{} / string values) as the oracle the property names"],
+        "assumptions": ["untyped containers in the Lean model; element values are scalars or container references; strings are ASCII",
+                        "WF hypotheses of write_then_read / append theorems (slice header inside its backing array) are stated locally, not yet as a global invariant"],
+        "partial": ["typed containers (make / typed literals) and struct fields are decided by the typed part of the cont stream (store = Go conversion or error, content keeps "
+                    "the declared type) and by the conversion theorems of C11, not by the heap model"],
+    },
     "C16": {
         "gens": [],
         "lean": "Anko.Props.C16",
@@ -206,6 +219,20 @@ MANIFEST_TEXT = {
         "note": "Trusted: Lean kernel; goyacc (LALR tables not modelled); the grammar extractor (regex over parser.go.y, closed shapes). Follows fix a4e6d85 (-0b literals).",
         "technique": "Lean 4 proof (precedence-climbing round trip by induction on trees; decide over regenerated table) + metamorphic parser correspondence",
         "design_ref": "DESIGN.md section 6 (C03)",
+    },
+    "C10": {
+        "text": "Machine-checked proofs (Lean 4) over a heap model (slice headers over shared backing arrays, maps by reference, immutable "
+                "strings) mirroring the interpreter's index / slice / element-store / append / delete code: in-range reads return exactly the "
+                "addressed element, every other index value (negative, >= len, not a number) is an error; a sub-slice reads and writes the "
+                "source's storage (aliasing theorems), assignment copies the header only; read-after-write and frame (no other slot, no other "
+                "array changes); EVERY failing statement leaves variables, arrays and maps exactly unchanged (all operations, lifted to "
+                "histories); maps: store-then-read, other keys untouched, missing and unhashable keys read nil, unhashable key on write/delete "
+                "is an error; append: beyond capacity builds a fresh array (old arrays untouched), within capacity writes in place. "
+                "Correspondence + oracle: random histories over 5 variables run by the interpreter, by a native Go reference on real slices/maps/"
+                "strings and by the model (results, final contents, capacities, sharing).",
+        "note": "Trusted: Lean kernel; model fidelity (differential); Go runtime growth policy (parameter). Typed containers / struct fields: stream oracle + C11 conversion theorems.",
+        "technique": "Lean 4 proof (heap-model invariants per operation, error-frame theorem over all operations) + differential histories against model and native Go",
+        "design_ref": "DESIGN.md section 6 (C10)",
     },
     "C16": {
         "text": "Machine-checked proofs (Lean 4) over the Go channel specification (FIFO buffer, capacity, closed flag, rendezvous): for ANY "
